@@ -8,8 +8,28 @@ CHECKS = {
    text="Generated-input search with an explicit oracle. Exhaustive over all 251 payload lengths x every 2-way split x every single-bit error x both error modes; proptest-generated streams (frames, noise, sync bytes, truncated and bit-flipped frames, embedded frame images) under generated chunkings are read through the real link::reader::Reader over the in-memory PhysLayer and compared with an independent greedy reference scanner; a separate CRC clause checks 1-3 bit errors without the scanner. Exploration is the right level: the domain is unbounded byte streams x chunkings; finite sub-domains are enumerated completely and reported as such.",
    note="Trusted base: /verif/harness/wire (bit-serial CRC-16/DNP, frame encoder, greedy scanner written from IEEE 1815), hook H3 (VerifIo returns exactly the queued chunk per read). Assumes weight<=3 errors inside one block are always detected by CRC-16/DNP (HD=6 at these lengths).",
    design="DESIGN.md §5 C06"),
-}
 
+ "C03": dict(
+   technique="stateful property-based testing (proptest op sequences + interpreter) against an independent event ledger",
+   text="Generated histories (updates of all 8 point types, polls by class/type/variation with count limits, right/wrong/late confirms, timeouts, aborting requests, enable/disable unsolicited, reconnects, tiny buffers) drive a real OutstationTask behind the real ServerTask loop on a paused-clock runtime; the harness plays the master on the wire with its own codecs and keeps a ledger of every event id, every fragment that carried it and every release callback. Clauses L1-L6 of DESIGN.md §5 C03 are checked after every step, and the history ends with a confirmed drain. Exploration: the space of histories is unbounded; shrinking yields a minimal op list as replay.",
+   note="Trusted base: harness/wire (link, transport, application walker and measurement decoder), hooks H1/H3, virtual clock of tokio (paused). 'Confirmed' is decided by the harness from what it sent and when; confirms exactly at a deadline instant are not judged.",
+   design="DESIGN.md §5 C03"),
+ "C08": dict(
+   technique="property-based testing: exhaustive length sweep + proptest-mutated segment streams against a validity predicate",
+   text="Every fragment length 1..=2048 is written through transport::real::writer::Writer, deframed by the reference codec (FIR/FIN/sequence/<=249 rules) and read back through transport::real::reader::Reader under three chunkings, for both directions and every start sequence; generated segment streams from two senders are mutated (drop, duplicate, swap, re-address, FIR/FIN toggles, sequence perturbation, empty frames, interleaving) and the delivered fragments are compared, both ways, with the statement's validity predicate.",
+   note="Trusted base: harness/wire/transport.rs (segmenter + predicate), harness/wire/link.rs. Link addressing is kept valid (C07 covers addressing).",
+   design="DESIGN.md §5 C08"),
+ "C12": dict(
+   technique="property-based testing of request/response pairs on a deterministic session rig, reference parser as second opinion",
+   text="Generated requests (every function code, flag combination, sequence number, 0-4 object headers of acceptable / not-acceptable-for-the-function / unknown / truncated kinds, large control echoes) are sent in idle, solicited-confirm-wait and both unsolicited-confirm-wait states; every transmitted fragment is checked for correlation, flags, numbering, size bound, clean parse by the library parser and the reference walker, silence for no-reply functions and an IIN2 error bit for anything rejected.",
+   note="Which IIN2 error bit is used, and silence-vs-error for no-ack functions / CONFIRM with unacceptable objects, are not asserted. Fragments carrying a response function code are not requests and are not judged.",
+   design="DESIGN.md §5 C12"),
+ "C13": dict(
+   technique="stateful property-based testing against a reference model of the indication bits (shares the C03 ledger)",
+   text="The C03 history generator extended with broadcasts (3 confirm modes), restart-bit writes, application IIN changes; a model derived from the statement predicts every IIN bit of every newly built response (class bits from the ledger minus in-flight events, overflow latch, restart latch, broadcast pending, application bits) and is compared with the wire.",
+   note="Re-sent fragments are not judged (C05). Callback/transmission order is reconstructed from the enter_*_confirm_wait callbacks. A confirm-mandatory broadcast indication after a confirmation the outstation was not waiting for is not judged (statement ambiguous).",
+   design="DESIGN.md §5 C13"),
+}
 NOT_YET = {
 }
 
